@@ -62,7 +62,10 @@ ExplainPath(e) ==
                           \cup want(m.name # "RegistrationRequest" \/ "container" \notin DOMAIN a \/ (Opt(m, 113).has /\ Opt(m, 113).v = a.container), "NAS message container (IEI 71) is not the given message")
                           \cup want(m.name # "RegistrationRequest" \/ "uds" \in DOMAIN a \/ (~Opt(m, 64).has /\ ~Opt(m, 47).has /\ ~Opt(m, 113).has), "an optional IE that was not asked for is present")
                    [] e.fn = "GetAuthenticationResponse" ->
-                          want(m.name = "AuthenticationResponse" /\ Opt(m, 45).has /\ Opt(m, 45).v = a.res, "authentication response parameter (IEI 2D) is not the given RES*")
+                          (IF "eap" \in DOMAIN a
+                           THEN want(m.name = "AuthenticationResponse" /\ Opt(m, 120).has /\ Opt(m, 120).v = a.eap, "EAP message (IEI 78) is not the given EAP packet")
+                                \cup want(m.name # "AuthenticationResponse" \/ ~Opt(m, 45).has, "an authentication response parameter that was not asked for is present")
+                           ELSE want(m.name = "AuthenticationResponse" /\ Opt(m, 45).has /\ Opt(m, 45).v = a.res, "authentication response parameter (IEI 2D) is not the given RES*"))
                    [] e.fn = "GetSecurityModeComplete" ->
                           want(m.name = "SecurityModeComplete" /\ Opt(m, 113).has /\ Opt(m, 113).v = a.container, "NAS message container (IEI 71) is not the given message")
                    [] e.fn = "GetRegistrationComplete" -> want(m.name = "RegistrationComplete" /\ m.opt = <<>>, "not a bare REGISTRATION COMPLETE")
